@@ -170,6 +170,7 @@ def analyze(ctx, want):
     for p in paths:
         fc = p.calls(r"fs::File::create::")
         oo = p.calls(r"fs::OpenOptions::open::")
+        path_idx = 0
         if oo and not fc:
             # File::create == OpenOptions::new().write(true).create(true).truncate(true).open(..)
             chain = S.fstr(oo[0][7][0] if len(oo[0]) > 7 else oo[0][3][0])
@@ -183,7 +184,9 @@ def analyze(ctx, want):
             ob("C18.a", "dot-file-is-created-truncating", ok,
                "the file is opened with OpenOptions flags %s: an existing (longer) file must be truncated, otherwise a stale tail remains after the new graph" % flags, gd.loc(oo[0][1]))
             fc = oo
+            path_idx = 1
         elif fc:
+            path_idx = 0
             ob("C18.a", "dot-file-is-created-truncating", True, "File::create (write + create + truncate)", gd.loc(fc[0][1]))
         if not fc:
             if p.end[0] == "return":
@@ -191,7 +194,7 @@ def analyze(ctx, want):
                 seen.add("done")
                 ob("C18.d", "returns-ok-after-all-modes", variant_of(ex, p, r) == "Ok", "-> %s" % S.fstr(r)[:40], gd.loc())
             continue
-        fp = fmt_parts(argval(fc[0], 0), ex, p)
+        fp = fmt_parts(argval(fc[0], path_idx), ex, p)
         ok = fp is not None and len(fp[1]) == 3
         if ok:
             a, b, c = [S.fstr(v) for v in fp[1]]
